@@ -3,7 +3,7 @@
 # For each kept seeded change run ONLY the check of the property it was written against (quick tier) on a patched scratch
 # copy; prints `OWN <id> <property> exit=<code> signature: ...; ...` lines (input of tools/seeded_results.py --own <log>).
 cd "$(dirname "$(readlink -f "$0")")/.."
-ids="${*:-$(ls seeded | grep -v RESULTS | grep -v '\.log$')}"
+ids="${*:-$(ls seeded | grep -v RESULTS | grep -v '\.log$' | grep -v '^_')}"
 for id in $ids; do
   d="seeded/$id"
   [ -f "$d/patch.diff" ] || continue
